@@ -1222,6 +1222,8 @@ static vnaproperty_t **descend(parser_t *parser,
     vnaproperty_t **anchor = rootptr;
     vnaproperty_t *node = *anchor;
     vnaproperty_t *collection = NULL;
+    vnaproperty_t *inserted_list = NULL;	/* first [n+] / [+] on the path */
+    int inserted_index = -1;
 
     /*
      * Following the expression list, walk down the tree.
@@ -1320,6 +1322,10 @@ static vnaproperty_t **descend(parser_t *parser,
 		if ((anchor = list_insert(node, exp->u.ex_index)) == NULL) {
 		    goto error;
 		}
+		if (inserted_list == NULL) {
+		    inserted_list = node;
+		    inserted_index = exp->u.ex_index;
+		}
 		node = *anchor;
 		continue;
 
@@ -1331,6 +1337,11 @@ static vnaproperty_t **descend(parser_t *parser,
 		collection = node;
 		if ((anchor = list_append(node)) == NULL) {
 		    goto error;
+		}
+		if (inserted_list == NULL) {
+		    inserted_list = node;
+		    inserted_index =
+			(int)((vnaproperty_list_t *)node)->vpl_length - 1;
 		}
 		node = *anchor;
 		continue;
@@ -1360,6 +1371,17 @@ static vnaproperty_t **descend(parser_t *parser,
     return anchor;
 
 error:
+    /*
+     * If we inserted or appended a list cell on the way down, take it
+     * out again (with everything created below it) so that a failed
+     * call can simply be repeated.
+     */
+    if (inserted_list != NULL) {
+	int saved_errno = errno;
+
+	(void)list_delete(inserted_list, inserted_index);
+	errno = saved_errno;
+    }
     parser_free(parser);
     return NULL;
 }
